@@ -206,7 +206,7 @@ func runPark(r *vk.Run, c ParkCase) {
 			// the production loop gets the time to act on whatever it was told: until it has touched the datastore (an
 			// attempt reads the pending counts from it) and has been quiet for 10 ms, at most 1 s
 			c0 := aggCalls.Load()
-			waitUntil(time.Second, func() bool { return aggCalls.Load() > c0 })
+			waitUntil(3*time.Second, func() bool { return aggCalls.Load() > c0 })
 			quietBy := time.Now().Add(time.Second) // a loop that keeps asking (and being declined) is never quiet
 			for last := int64(-1); last != aggCalls.Load() && time.Now().Before(quietBy); {
 				last = aggCalls.Load()
